@@ -75,6 +75,36 @@ structure Cfg where
   backoff : Nat → Nat := fun _ => 0        -- `IntervalFunction::next_interval`, in µs
   budget  : Option Budget := none
   b0      : BState := ⟨0, 0⟩               -- initial budget state
+  aimd    : Bool := false                  -- the budget is an `AimdBudget` (only then `probe limit` has an answer)
+
+/-! ## the builder
+
+`RetryLayer::builder()` (config.rs `RetryConfigBuilder::new`) starts from 3 attempts, no predicate (every error is
+retried), no interval function (`build()` then takes `ExponentialBackoff::new(100 ms)`), no budget. Every setter
+overwrites one field of the builder and nothing else: `max_attempts(n)` and `max_attempts_fn(f)` both write the single
+"max attempts source", `fixed_backoff` / `exponential_backoff` / `backoff` all write the interval function, `retry_on`
+the predicate, `budget` the budget. So every setting of the built layer is the one set LAST, wherever the setters of the
+other settings stand — in particular a `max_attempts(n)` after a `max_attempts_fn(f)` gives every request the limit `n`. -/
+
+inductive Setter
+  | maxA (n : Nat)                         -- `.max_attempts(n)`
+  | maxFn (dflt : Nat)                     -- `.max_attempts_fn(f)`; `dflt`: what `f` answers for a request without `ma=`
+  | backoff (f : Nat → Nat)                -- `.fixed_backoff(d)` / `.exponential_backoff(d)` / `.backoff(i)`, in µs
+  | pred (p : Nat → Bool)                  -- `.retry_on(p)`
+  | budget (bu : Budget) (b0 : BState) (aimd : Bool)   -- `.budget(b)`, `b` in state `b0`
+
+def defaultCfg : Cfg :=
+  { max := 3, dyn := false, pred := fun _ => true, backoff := fun k => 100000 * 2 ^ k, budget := none }
+
+def applySetter (cfg : Cfg) : Setter → Cfg
+  | .maxA n => { cfg with max := n, dyn := false }
+  | .maxFn d => { cfg with max := d, dyn := true }
+  | .backoff f => { cfg with backoff := f }
+  | .pred p => { cfg with pred := p }
+  | .budget bu b0 a => { cfg with budget := some bu, b0 := b0, aimd := a }
+
+/-- the configuration of the layer `builder().s₁.s₂.….build()` -/
+def build (chain : List Setter) : Cfg := chain.foldl applySetter defaultCfg
 
 inductive Phase
   | fresh                                    -- future created, never polled
@@ -311,46 +341,76 @@ def durOf (us : Bool) (s : String) : Nat :=
 /-- `ExponentialBackoff` (multiplier 2, no cap): `initial · 2^k`, saturating at `Duration::MAX` -/
 def expOf (d k : Nat) : Nat := min (d * 2 ^ k) durMaxUs
 
+/-- `fixed:10 | exp:5 | fn:1,2,3`, values in ms (µs when `us`) or `max`. The result is in µs. -/
+def backoffOf (us : Bool) (s : String) : Nat → Nat :=
+  match s.splitOn ":" with
+  | ["fixed", d] => let d := durOf us d; fun _ => d
+  | ["exp", d] => let d := durOf us d; fun k => expOf d k
+  | [_, t] => let t := ((t.splitOn ",").filter (· ≠ "")).map (durOf us); fun k => t.getD k 0
+  | _ => fun _ => 0
+
 /-- `bo=fixed:10 | exp:5 | fn:1,2,3 [unit=us]`, values in ms (µs with `unit=us`) or `max`; absent: the
 builder's default, exponential from 100 ms. The result is in µs. -/
 def parseBackoff (kv : Kv) : Nat → Nat :=
   let us := kv.get "unit" == some "us"
   match kv.get "bo" with
   | none => fun k => 100000 * 2 ^ k
-  | some s =>
-      match s.splitOn ":" with
-      | ["fixed", d] => let d := durOf us d; fun _ => d
-      | ["exp", d] => let d := durOf us d; fun k => expOf d k
-      | [_, t] => let t := ((t.splitOn ",").filter (· ≠ "")).map (durOf us); fun k => t.getD k 0
-      | _ => fun _ => 0
+  | some s => backoffOf us s
+
+/-- kind k is retried iff bit k of the mask is set -/
+def predOf (m : Nat) : Nat → Bool := fun k => k < 64 && (m / 2 ^ k) % 2 == 1
 
 /-- `retry=<mask>`: kind k is retried iff bit k is set; absent: every error is retried -/
 def parsePred (kv : Kv) : Nat → Bool :=
   match kv.optNat "retry" with
   | none => fun _ => true
-  | some m => fun k => k < 64 && (m / 2 ^ k) % 2 == 1
+  | some m => predOf m
 
-/-- `budget=bucket:<max>:<initial> | aimd:<min>:<max>:<dep>:<wd>:<q>`; (budget, initial state, is-AIMD) -/
-def parseBudget (kv : Kv) : Option Budget × BState × Bool :=
-  match kv.get "budget" with
-  | none => (none, ⟨0, 0⟩, false)
-  | some s =>
-      match s.splitOn ":" with
-      | "bucket" :: rest =>
-          let p := rest.map fun x => x.toNat?.getD 0
-          let m := p.getD 0 1
-          (some (bucket m), ⟨p.getD 1 m, m⟩, false)
-      | "aimd" :: rest =>
-          let p := rest.map fun x => x.toNat?.getD 0
-          let mn := p.getD 0 1
-          let mx := p.getD 1 1
-          (some (aimd mn mx (p.getD 2 1) (p.getD 3 1) (p.getD 4 2)), ⟨mx, mx⟩, true)
-      | _ => (none, ⟨0, 0⟩, false)
+/-- `bucket:<max>:<initial> | aimd:<min>:<max>:<dep>:<wd>:<q>`; (budget, initial state, is-AIMD) -/
+def budgetOf (s : String) : Option (Budget × BState × Bool) :=
+  match s.splitOn ":" with
+  | "bucket" :: rest =>
+      let p := rest.map fun x => x.toNat?.getD 0
+      let m := p.getD 0 1
+      some (bucket m, ⟨p.getD 1 m, m⟩, false)
+  | "aimd" :: rest =>
+      let p := rest.map fun x => x.toNat?.getD 0
+      let mn := p.getD 0 1
+      let mx := p.getD 1 1
+      some (aimd mn mx (p.getD 2 1) (p.getD 3 1) (p.getD 4 2), ⟨mx, mx⟩, true)
+  | _ => none
+
+/-- all characters are decimal digits, and there is one -/
+def digits? (s : String) : Option Nat := if s.all Char.isDigit then s.toNat? else none
+
+/-- one item of `chain=`: `m<n>` / `f<n>` / `bf<d>` / `be<d>` / `bt<d>/<d>/…` / `p<mask>` / `ubucket:…` / `uaimd:…`;
+anything else is skipped (as the harness does) -/
+def parseSetter (us : Bool) (w : String) : Option Setter :=
+  let a1 := (w.drop 1).toString
+  let a2 := (w.drop 2).toString
+  if w.startsWith "m" then (digits? a1).map .maxA
+  else if w.startsWith "f" then (digits? a1).map .maxFn
+  else if w.startsWith "p" then (digits? a1).map fun m => .pred (predOf m)
+  else if w.startsWith "bf" then some (.backoff (backoffOf us ("fixed:" ++ a2)))
+  else if w.startsWith "be" then some (.backoff (backoffOf us ("exp:" ++ a2)))
+  else if w.startsWith "bt" then some (.backoff (backoffOf us ("fn:" ++ a2.replace "/" ",")))
+  else if w.startsWith "u" then (budgetOf a1).map fun (bu, b0, a) => .budget bu b0 a
+  else none
+
+/-- header word `chain=s1,s2,…`: the builder chain, left to right -/
+def parseChain (us : Bool) (s : String) : List Setter := (s.splitOn ",").filterMap (parseSetter us)
 
 def parseCfg (kv : Kv) : Cfg × Bool :=
-  let (bu, b0, isAimd) := parseBudget kv
-  ({ max := kv.nat "max" 3, dyn := kv.nat "dyn" 0 == 1, pred := parsePred kv,
-     backoff := parseBackoff kv, budget := bu, b0 := b0 }, isAimd)
+  match kv.get "chain" with
+  | some ch => let cfg := build (parseChain (kv.get "unit" == some "us") ch); (cfg, cfg.aimd)
+  | none =>
+    match (kv.get "budget").bind budgetOf with
+    | some (bu, b0, isAimd) =>
+        ({ max := kv.nat "max" 3, dyn := kv.nat "dyn" 0 == 1, pred := parsePred kv,
+           backoff := parseBackoff kv, budget := some bu, b0 := b0, aimd := isAimd }, isAimd)
+    | none =>
+        ({ max := kv.nat "max" 3, dyn := kv.nat "dyn" 0 == 1, pred := parsePred kv,
+           backoff := parseBackoff kv }, false)
 
 def parseOp (isAimd : Bool) (ws : List String) : Option Op :=
   match ws with
